@@ -44,13 +44,25 @@ Took(name) == acts' = acts \cup {name}
 \* resp. the 47th below the trailer -- the parser's nesting limit).
 Lay(n, k, tree, nums, g1, refs, two, bms, zero, red) ==
     [n |-> n, k |-> k, tree |-> tree, nums |-> nums, g1 |-> g1, refs |-> refs, two |-> two, bms |-> bms,
-     zero |-> zero, red |-> red, shared |-> FALSE, deep |-> 0]
+     zero |-> zero, red |-> red, shared |-> FALSE, deep |-> 0, dupk |-> FALSE, bdang |-> {}]
 Deep(L, d) == [L EXCEPT !.deep = d]
+\* dupk: the first page is listed a second time at the end of Kids ([P1, P2, P1]); bdang: ids offered as
+\* bookmark targets although they name no object; shared: see above
+WithDup(L)        == [L EXCEPT !.dupk = TRUE]
+WithBmDang(L, S)  == [L EXCEPT !.bdang = S]
+Shared(L)         == [L EXCEPT !.shared = TRUE]
 
 \* small page tree whose slots are nested d deep / whose <= 3 bookmarks include the (0,0) target (the
 \* harness hangs the bookmarks of a case together as roots, children, grandchildren or loose entries)
 LayDeep(d) == Deep(Lay(3, 1, TRUE, {1, 3, 5}, 0, 1, FALSE, 1, FALSE, TRUE), d)
 LayBm3     == Lay(4, 2, TRUE, {1, 2, 3, 5}, 0, 0, FALSE, 3, TRUE, TRUE)
+\* a page listed twice / bookmarks on ids that name nothing (inside and outside the new range) / two
+\* live objects under one number with different generations (a page can be re-keyed onto a non-page)
+LayDup2    == WithDup(Lay(4, 2, TRUE, {1, 2, 3, 5}, 0, 0, FALSE, 1, FALSE, TRUE))
+LayDup3    == WithDup(Lay(5, 3, TRUE, {1, 2, 3, 4, 6}, 0, 0, FALSE, 1, FALSE, TRUE))
+LayBmDang  == WithBmDang(Lay(3, 1, TRUE, {1, 3, 5}, 0, 0, FALSE, 2, FALSE, TRUE), {<<2, 0>>, <<9, 0>>})
+LayShared2 == Shared(Lay(4, 2, TRUE, {1, 2, 3}, 2, 0, FALSE, 1, FALSE, TRUE))
+LayShared1 == Shared(Lay(4, 1, TRUE, {1, 2, 3}, 2, 1, FALSE, 1, FALSE, TRUE))
 
 LayoutsQuick ==
     {Lay(0, 0, FALSE, {1}, 0, 1, FALSE, 0, FALSE, TRUE),
@@ -59,7 +71,11 @@ LayoutsQuick ==
      Lay(3, 1, TRUE, {1, 2, 3, 5}, 1, 1, FALSE, 1, FALSE, TRUE),
      Lay(4, 2, TRUE, {1, 2, 3, 5}, 1, 1, FALSE, 2, FALSE, TRUE),
      Lay(4, 1, TRUE, {1, 2, 3, 5}, 0, 1, FALSE, 1, FALSE, TRUE),
-     LayDeep(47), LayBm3}
+     LayDeep(47), LayBm3, LayDup2, LayBmDang, LayShared2}
+
+\* the quick layouts without the shapes of the findings that are still open (negative control of the
+\* declarative layer with the four repaired defects seeded back, MC_Renumber_quick_seeded.cfg)
+LayoutsFormer == LayoutsQuick \ {LayDup2, LayBmDang, LayShared2}
 
 LayoutsThorough ==
     {Lay(0, 0, FALSE, {1}, 0, 1, FALSE, 0, FALSE, FALSE),
@@ -72,17 +88,11 @@ LayoutsThorough ==
      Lay(4, 1, TRUE, {1, 2, 3, 5}, 1, 2, FALSE, 1, FALSE, TRUE),
      Lay(5, 3, TRUE, {1, 2, 3, 4, 6}, 1, 1, FALSE, 3, FALSE, TRUE),
      Lay(5, 2, TRUE, {1, 2, 3, 4, 6}, 0, 1, FALSE, 2, FALSE, TRUE),
-     LayDeep(1), LayDeep(2), LayDeep(10), LayDeep(46), LayDeep(47), LayBm3}
+     LayDeep(1), LayDeep(2), LayDeep(10), LayDeep(46), LayDeep(47), LayBm3,
+     LayDup2, LayDup3, LayBmDang, LayShared2, LayShared1}
 
 \* smallest layout that takes every action (coverage run)
 LayoutsCov == {Lay(0, 0, FALSE, {1}, 0, 0, FALSE, 0, FALSE, TRUE), Lay(4, 2, TRUE, {1, 2, 3, 5}, 0, 0, FALSE, 1, FALSE, TRUE)}
-
-\* outside the stated domain (kept for experiments): two live objects under one number.  A cross-
-\* reference table has one entry per number, so no file yields such a document; on it the page-order
-\* pass can re-key a page onto another object's id (same number, the page's generation) and lose it.
-LayoutsShared ==
-    {[Lay(4, 2, TRUE, {1, 2, 3}, 2, 1, FALSE, 1, FALSE, FALSE) EXCEPT !.shared = TRUE],
-     [Lay(4, 1, TRUE, {1, 2, 3}, 2, 1, FALSE, 1, FALSE, FALSE) EXCEPT !.shared = TRUE]}
 
 DangQuick    == {<<2, 0>>, <<3, 1>>, <<9, 0>>}
 DangThorough == {<<2, 0>>, <<3, 1>>, <<4, 0>>, <<9, 0>>}
@@ -117,7 +127,8 @@ ObjOfRole(L, idf, sl, r) ==
     THEN [k |-> "dict", v |-> << <<KPages, MkRef(idf[2])>>, <<KType, Name(KCatalog)>> >>]
     ELSE IF L.tree /\ r = 2
     THEN [k |-> "dict", v |-> << <<KCount, IntObj(L.k)>>,
-                                 <<KKids, [k |-> "arr", v |-> [j \in 1..L.k |-> MkRef(idf[2 + j])]]>>,
+                                 <<KKids, [k |-> "arr", v |-> [j \in 1..L.k |-> MkRef(idf[2 + j])] \o
+                                                       (IF L.dupk /\ L.k >= 1 THEN <<MkRef(idf[3])>> ELSE <<>>)]>>,
                                  <<KType, Name(KPages)>> >>]
     ELSE IF r \in PageRoles(L)
     THEN [k |-> "dict", v |-> OptW(KA, SlotOf(sl, <<r, "A">>), L.deep) \o
@@ -165,6 +176,7 @@ Build2 ==
     /\ UNCHANGED <<lay, ids, before, start, s, i, pg, srt, ord, live>>
 
 BmTargets == {ids[r] : r \in PageRoles(lay)} \cup (IF lay.zero THEN {<<0, 0>>} ELSE {})
+             \cup (lay.bdang \ {ids[r] : r \in Roles(lay)})
 BmChoices == {<<>>}
              \cup (IF lay.bms >= 1 THEN {<<t>> : t \in BmTargets} ELSE {})
              \cup (IF lay.bms >= 2 THEN {<<p[1], p[2]>> : p \in {q \in BmTargets \X BmTargets : IdLess(q[1], q[2])}} ELSE {})
@@ -191,7 +203,7 @@ DenseFinishS ==
     /\ DenseFinish /\ UNCHANGED <<lay, ids, slots>> /\ Took("DenseFinishS")
 DenseFinishRepaired ==
     /\ ~DevUnder /\ pc = "dpair" /\ i > Len(ord) /\ start + Cardinality(live) = 0
-    /\ s' = [FinishPass(s, live, DevChain, DevDang) EXCEPT !.max_id = 0]
+    /\ s' = [FinishPass(s, live, DevChain, DevDang, DevBmDang) EXCEPT !.max_id = 0]
     /\ pc' = "done"
     /\ UNCHANGED <<before, start, i, pg, srt, ord, live, lay, ids, slots>> /\ Took("DenseFinishRepaired")
 
@@ -210,14 +222,14 @@ Consistent == (pc = "done" /\ ~s.panic) => (Acceptable(before, After, start) <=>
 
 FunctionForm ==
     pc = "done" =>
-        LET r == ImplRun(before, start, DevChain, DevDang) IN
+        LET r == ImplRunX(before, start, DevRec) IN
         IF s.panic THEN r.panic
         ELSE r.panic \/ (r.objs = s.objs /\ r.trailer = s.trailer /\ r.max_id = s.max_id /\ r.bms = s.bms)
 
 \* the algorithm with every confirmed deviation repaired satisfies the property on the same input
 RepairedRefines ==
     pc = "done" =>
-        LET r == ImplRun(before, start, FALSE, FALSE) IN
+        LET r == ImplRunX(before, start, NoDev) IN
         Acceptable(before, DocOfState(IF r.panic THEN [r EXCEPT !.max_id = 0] ELSE r), start)
 
 \* deterministic sampling of the printed cases (EmitMod = 1: all)
